@@ -73,11 +73,15 @@ func c15Parse(out string) ([]c15Diag, []string) {
 }
 
 func c15Main(cwd string, args []string) (int, string, string) {
+	return c15MainIn(cwd, args, "")
+}
+
+func c15MainIn(cwd string, args []string, stdin string) (int, string, string) {
 	if err := os.Chdir(cwd); err != nil {
 		panic(err)
 	}
 	var stdout, stderr bytes.Buffer
-	cmd := Command{Stdin: strings.NewReader(""), Stdout: &stdout, Stderr: &stderr}
+	cmd := Command{Stdin: strings.NewReader(stdin), Stdout: &stdout, Stderr: &stderr}
 	code := func() (code int) {
 		defer func() {
 			if p := recover(); p != nil {
@@ -93,7 +97,7 @@ func c15Main(cwd string, args []string) (int, string, string) {
 func TestVerifC15(t *testing.T) {
 	r := vNewReport("C15")
 	defer r.Write(t)
-	r.Extra["rule"] = "3 workflows x 8 -ignore sets x 4 paths globs x 4 config ignore sets x 4 working directories x 3 path spellings through Command.Main (-oneline -no-color), complete product; oracle: unfiltered list minus diagnostics matched by a CLI pattern or by a config pattern whose glob matches the root-relative path, order preserved, exit 1 iff non-empty; plus exit-status rows (invalid flag 2; unreadable file, bad config, bad -ignore regexp, bad config regexp 3). class = (remaining diagnostics, exit status); non-trivial = something is filtered"
+	r.Extra["rule"] = "3 workflows x 8 -ignore sets x 4 paths globs x 4 config ignore sets x 4 working directories x 5 path spellings (relative, ./relative, absolute; piped through stdin with a relative / absolute -stdin-filename) through Command.Main (-oneline -no-color), complete product; oracle: unfiltered list minus diagnostics matched by a CLI pattern or by a config pattern whose glob matches the root-relative path, order preserved, exit 1 iff non-empty; plus exit-status rows (invalid flag 2; unreadable file, bad config, bad -ignore regexp, bad config regexp 3). class = (remaining diagnostics, exit status); non-trivial = something is filtered"
 	r.Extra["assumptions"] = []string{"glob match bits are part of the scenario table (written by hand for 4 globs x 3 files)", "working directory is process-global: cases run sequentially inside each worker process"}
 	orig, _ := os.Getwd()
 	defer os.Chdir(orig)
@@ -126,6 +130,7 @@ func TestVerifC15(t *testing.T) {
 	if raw := vReplayInput(); raw != nil {
 		var rp struct {
 			Cwd, Config string
+			Stdin       string
 			Args        []string
 			Want        []string
 			WantExit    int `json:"want_exit"`
@@ -137,7 +142,7 @@ func TestVerifC15(t *testing.T) {
 			} else {
 				os.WriteFile(cfgPath, []byte(rp.Config), 0o644)
 			}
-			code, out, errOut := c15Main(cwds[rp.Cwd], rp.Args)
+			code, out, errOut := c15MainIn(cwds[rp.Cwd], rp.Args, rp.Stdin)
 			fmt.Printf("replay %d: cwd=%s args=%v exit=%d (want %d)\nstdout:\n%s\nstderr:\n%s\nwant: %v\n", k, rp.Cwd, rp.Args, code, rp.WantExit, out, errOut, rp.Want)
 			ds, _ := c15Parse(out)
 			var got []string
@@ -173,7 +178,7 @@ func TestVerifC15(t *testing.T) {
 				g := &c15Globs[gi]
 				for pi, cfgPats := range c15CfgSets {
 					for _, cwdName := range []string{"root", "parent", "nested", "unrelated"} {
-						for _, spelling := range []string{"relative", "dot-relative", "absolute"} {
+						for _, spelling := range []string{"relative", "dot-relative", "absolute", "stdin-relative", "stdin-absolute"} {
 							idx++
 							if !r.Mine(idx) {
 								continue
@@ -183,7 +188,9 @@ func TestVerifC15(t *testing.T) {
 							}
 							abs := filepath.Join(root, ".github/workflows", wf)
 							arg := abs
-							if spelling != "absolute" {
+							// stdin-*: the workflow is piped in and the path is given with -stdin-filename
+							viaStdin := strings.HasPrefix(spelling, "stdin-")
+							if spelling != "absolute" && spelling != "stdin-absolute" {
 								rel, err := filepath.Rel(cwds[cwdName], abs)
 								if err != nil {
 									continue
@@ -198,9 +205,15 @@ func TestVerifC15(t *testing.T) {
 							for _, p := range cli {
 								args = append(args, "-ignore", p)
 							}
-							args = append(args, arg)
+							stdin := ""
+							if viaStdin {
+								args = append(args, "-stdin-filename", arg, "-")
+								stdin = c15Workflows[wf]
+							} else {
+								args = append(args, arg)
+							}
 							r.Begin(func() string { return fmt.Sprintf("cwd=%s args=%v glob=%s cfg=%v", cwdName, args, g.glob, cfgPats) })
-							code, out, errOut := c15Main(cwds[cwdName], args)
+							code, out, errOut := c15MainIn(cwds[cwdName], args, stdin)
 							r.Evaluations++
 							r.Transitions++
 							r.Validated++
@@ -237,7 +250,7 @@ func TestVerifC15(t *testing.T) {
 							if b, err := os.ReadFile(cfgPath); err == nil {
 								cfgText = string(b)
 							}
-							replay := map[string]any{"cwd": cwdName, "args": args, "config": cfgText, "want": want, "want_exit": wantExit}
+							replay := map[string]any{"cwd": cwdName, "args": args, "config": cfgText, "want": want, "want_exit": wantExit, "stdin": stdin}
 							desc := fmt.Sprintf("%s cwd=%s spelling=%s -ignore=%v paths[%s].ignore=%v", wf, cwdName, spelling, cli, g.glob, cfgPats)
 							if strings.Join(got, "\n") != strings.Join(want, "\n") {
 								kind := "filter-mismatch"
